@@ -27,10 +27,11 @@ EXTENDS TxFlow, TraceLib
 
 VARIABLES l, run, drifted, drift,
           taken,    \* the queue record of the batch in production was deleted (between KV queue del and SeqNext)
+          execList, \* the transaction list of the block being executed, as the execution layer got it (with repetitions)
           rput,     \* the write-ahead record of the hand-off in progress was refused
           marking   \* the transactions of the handed-off batch whose seen-markers are still to come, in the batch's order
                     \* (the real batch is a list and may hold the same bytes twice; the model's batches are sets)
-xvars == <<l, run, drifted, drift, taken, marking, rput>>
+xvars == <<l, run, drifted, drift, taken, marking, rput, execList>>
 svars == <<vars, xvars>>
 
 e == Trace[l]
@@ -38,38 +39,40 @@ Is(name) == l <= N /\ ~drifted /\ e.ev = name
 Adv == l' = l + 1 /\ UNCHANGED <<run, drifted, drift>>
 Same == UNCHANGED vars
 SetOf(s) == {s[i] : i \in 1 .. Len(s)}
+RECURSIVE BagAddSeq(_, _)
+BagAddSeq(b, s) == IF s = <<>> THEN b ELSE BagAddSeq(BagAdd(b, Head(s)), Tail(s))
 BoundOf(b) == IF b = 0 THEN 1000000 ELSE b
 AllowedRun(r) == TRUE
 
-SInit == Init /\ l = 1 /\ run = "" /\ drifted = FALSE /\ drift = <<>> /\ taken = FALSE /\ marking = <<>> /\ rput = FALSE
+SInit == Init /\ l = 1 /\ run = "" /\ drifted = FALSE /\ drift = <<>> /\ taken = FALSE /\ marking = <<>> /\ rput = FALSE /\ execList = <<>>
 
 SReset ==
     /\ l <= N /\ e.ev = "Reset"
-    /\ l' = l + 1 /\ run' = e.run /\ drift' = drift /\ taken' = FALSE /\ marking' = <<>> /\ rput' = FALSE
+    /\ l' = l + 1 /\ run' = e.run /\ drift' = drift /\ taken' = FALSE /\ marking' = <<>> /\ rput' = FALSE /\ execList' = <<>>
     /\ drifted' = ~(BoundOf(e.bound) = Bound /\ AllowedRun(e))
-    /\ mempool' = {} /\ seen' = {} /\ queue' = <<>> /\ pcR' = "idle" /\ cand' = {} /\ pcP' = "idle" /\ cur' = {}
+    /\ mempool' = <<>> /\ seen' = {} /\ queue' = <<>> /\ pcR' = "idle" /\ cand' = {} /\ pcP' = "idle" /\ cur' = {}
     /\ pend' = {} /\ chain' = <<>> /\ injected' = {} /\ crashes' = 0 /\ excused' = {}
 
 \* ---- mempool ----
 SInject ==
-    /\ Is("Inject") /\ Adv /\ UNCHANGED <<taken, marking, rput>>
-    /\ injected' = injected \cup SetOf(e.txs) /\ mempool' = mempool \cup SetOf(e.txs)      \* Inject(t) for every t of the record
+    /\ Is("Inject") /\ Adv /\ UNCHANGED <<taken, marking, rput, execList>>
+    /\ injected' = injected \cup SetOf(e.txs) /\ mempool' = BagAddSeq(mempool, e.txs)      \* Inject(t) for every t of the record
     /\ UNCHANGED <<seen, queue, pcR, cand, pcP, cur, pend, chain, crashes, excused>>
 \* (the real mempool is a list and may hold the same bytes twice; the reaper acts on what is not yet marked seen)
-SGetTxs == Is("ExecGetTxs") /\ Adv /\ Same /\ UNCHANGED <<taken, marking, rput>> /\ SetOf(e.txs) \ seen = mempool \ seen
+SGetTxs == Is("ExecGetTxs") /\ Adv /\ Same /\ UNCHANGED <<taken, marking, rput, execList>> /\ SetOf(e.txs) \ seen = MpSet \ seen
 
 \* ---- reaper ----
 SQueuePut ==
-    /\ Is("KV") /\ e.kind = "queue" /\ e.op = "put" /\ Adv /\ UNCHANGED <<taken, marking, rput>>
+    /\ Is("KV") /\ e.kind = "queue" /\ e.op = "put" /\ Adv /\ UNCHANGED <<taken, marking, rput, execList>>
     /\ Len(queue) < Bound /\ ReapHandOff
 SSubmit ==
-    /\ Is("SeqSubmit") /\ Adv /\ UNCHANGED taken /\ rput' = FALSE
+    /\ Is("SeqSubmit") /\ Adv /\ UNCHANGED <<taken, execList>> /\ rput' = FALSE
     /\ IF e.ok THEN pcR = "handed" /\ SetOf(e.txs) = cand /\ Same /\ marking' = e.txs
              ELSE IF rput THEN pcR = "idle" /\ Same /\ marking' = marking        \* the hand-off failed on the refused record
-             ELSE Len(queue) >= Bound /\ SetOf(e.txs) = mempool \ seen /\ ReapHandOff /\ marking' = marking
+             ELSE Len(queue) >= Bound /\ SetOf(e.txs) = MpSet \ seen /\ ReapHandOff /\ marking' = marking
 \* refused writes
 SKVFail ==
-    /\ Is("KVFail") /\ Adv /\ UNCHANGED taken
+    /\ Is("KVFail") /\ Adv /\ UNCHANGED <<taken, execList>>
     /\ CASE e.kind = "queue" /\ e.op = "put" -> pcR = "idle" /\ rput' = TRUE /\ marking' = marking /\ Same
          [] e.kind = "seen" -> /\ rput' = rput /\ marking # <<>> /\ marking' = Tail(marking)
                                /\ IF Head(marking) \in cand THEN ReaperFail(Head(marking)) ELSE Same
@@ -77,52 +80,54 @@ SKVFail ==
          [] e.kind \in {"block", "state", "height"} -> UNCHANGED <<rput, marking>> /\ (IF pcP \in {"took", "saved"} THEN ProducerFail ELSE Same)
          [] OTHER -> UNCHANGED <<rput, marking>> /\ Same       \* bookkeeping writes whose failure is only logged
 SSeen ==
-    /\ Is("KV") /\ e.kind = "seen" /\ Adv /\ UNCHANGED <<taken, rput>>
+    /\ Is("KV") /\ e.kind = "seen" /\ Adv /\ UNCHANGED <<taken, rput, execList>>
     /\ marking # <<>> /\ marking' = Tail(marking)
     /\ IF Head(marking) \in cand THEN MarkSeen(Head(marking)) ELSE Same
-SReapEnd == Is("ReapEnd") /\ Adv /\ Same /\ UNCHANGED <<taken, marking, rput>> /\ pcR = "idle" /\ marking = <<>>
+SReapEnd == Is("ReapEnd") /\ Adv /\ Same /\ UNCHANGED <<taken, marking, rput, execList>> /\ pcR = "idle" /\ marking = <<>>
 
 \* ---- producer ----
 SStepEnter ==
-    /\ Is("StepEnter") /\ Adv /\ UNCHANGED <<taken, marking, rput>>
+    /\ Is("StepEnter") /\ Adv /\ UNCHANGED <<taken, marking, rput, execList>>
     /\ pcP = "idle"
     /\ IF pend # {} THEN UsePending ELSE Same
 SQueueDel ==
     /\ Is("KV") /\ e.kind = "queue" /\ e.op = "del" /\ Adv
-    /\ pcP = "idle" /\ pend = {} /\ ~taken /\ taken' = TRUE /\ marking' = marking /\ rput' = rput /\ Take
+    /\ pcP = "idle" /\ pend = {} /\ ~taken /\ taken' = TRUE /\ marking' = marking /\ rput' = rput /\ execList' = execList /\ Take
 SSeqNext ==
-    /\ Is("SeqNext") /\ Adv /\ Same /\ taken' = FALSE /\ marking' = marking /\ rput' = rput
+    /\ Is("SeqNext") /\ Adv /\ Same /\ taken' = FALSE /\ marking' = marking /\ rput' = rput /\ execList' = execList
     /\ IF e.kind = "batch" THEN taken /\ pcP = "took" /\ SetOf(e.txs) = cur ELSE ~taken /\ pcP = "idle"
 SBlock ==
-    /\ Is("KV") /\ e.kind = "block" /\ Adv /\ UNCHANGED <<taken, marking, rput>>
+    /\ Is("KV") /\ e.kind = "block" /\ Adv /\ UNCHANGED <<taken, marking, rput, execList>>
     /\ CASE ~e.fin /\ e.ntx > 0 /\ pcP = "took" -> Cardinality(cur) <= e.ntx /\ EarlySave
          [] OTHER -> Same /\ (e.ntx > 0 => pcP = "saved" /\ Cardinality(cur) <= e.ntx)
-SExec == Is("ExecTxs") /\ Adv /\ Same /\ UNCHANGED <<taken, marking, rput>> /\ (e.ok /\ e.txs # <<>> => pcP = "saved" /\ SetOf(e.txs) = cur)
+SExec == /\ Is("ExecTxs") /\ Adv /\ Same /\ UNCHANGED <<taken, marking, rput>> /\ (e.ok /\ e.txs # <<>> => pcP = "saved" /\ SetOf(e.txs) = cur)
+         /\ execList' = IF e.ok THEN e.txs ELSE execList
 \* the block counts as committed once the state that includes it is written: a node that dies after that write raises
 \* its chain height to the state's height when it starts again (and one that dies before it finds the block pending)
 SState ==
-    /\ Is("KV") /\ e.kind = "state" /\ Adv /\ UNCHANGED <<taken, marking, rput>>
-    /\ IF pcP = "saved" THEN Commit ELSE Same
-SKVOther == Is("KV") /\ e.kind \notin {"queue", "seen", "block", "state"} /\ Adv /\ Same /\ UNCHANGED <<taken, marking, rput>>
+    /\ Is("KV") /\ e.kind = "state" /\ Adv /\ UNCHANGED <<taken, marking, rput, execList>>
+    /\ IF pcP = "saved" THEN CommitN([t \in cur |-> LET c == Cardinality({i \in 1 .. Len(execList) : execList[i] = t}) IN IF c > 0 THEN c ELSE 1])
+                        ELSE Same
+SKVOther == Is("KV") /\ e.kind \notin {"queue", "seen", "block", "state"} /\ Adv /\ Same /\ UNCHANGED <<taken, marking, rput, execList>>
 
-SCrash == Is("Crash") /\ Adv /\ taken' = FALSE /\ marking' = <<>> /\ rput' = FALSE /\ Crash
+SCrash == Is("Crash") /\ Adv /\ taken' = FALSE /\ marking' = <<>> /\ rput' = FALSE /\ execList' = <<>> /\ Crash
 \* a step that ends with an error (scripted execution failure): the node goes down with the block saved early
-SHalt == Is("Halt") /\ Adv /\ UNCHANGED <<taken, marking, rput>>
+SHalt == Is("Halt") /\ Adv /\ UNCHANGED <<taken, marking, rput, execList>>
          /\ pcR' = "idle" /\ cand' = {} /\ pcP' = "idle" /\ cur' = {}
          /\ UNCHANGED <<mempool, seen, queue, pend, chain, injected, crashes, excused>>
 
 Consumed0 == {"Reset", "KVFail", "Inject", "ExecGetTxs", "KV", "SeqSubmit", "ReapEnd", "StepEnter", "SeqNext", "ExecTxs", "Crash", "Halt"}
-SOther == l <= N /\ ~drifted /\ e.ev \notin Consumed0 /\ Adv /\ Same /\ UNCHANGED <<taken, marking, rput>>
+SOther == l <= N /\ ~drifted /\ e.ev \notin Consumed0 /\ Adv /\ Same /\ UNCHANGED <<taken, marking, rput, execList>>
 
 Strict == SKVFail \/ SInject \/ SGetTxs \/ SQueuePut \/ SSubmit \/ SSeen \/ SReapEnd \/ SStepEnter \/ SQueueDel \/ SSeqNext
           \/ SBlock \/ SExec \/ SState \/ SKVOther \/ SCrash \/ SHalt \/ SOther
 
 SDrift ==
     /\ l <= N /\ ~drifted /\ e.ev # "Reset" /\ ~ENABLED Strict
-    /\ drifted' = TRUE /\ l' = l + 1 /\ run' = run /\ taken' = taken /\ marking' = marking /\ rput' = rput
+    /\ drifted' = TRUE /\ l' = l + 1 /\ run' = run /\ taken' = taken /\ marking' = marking /\ rput' = rput /\ execList' = execList
     /\ drift' = Append(drift, [l |-> l, run |-> run, ev |-> e.ev, pc |-> pcR \o "/" \o pcP, height |-> Len(chain)])
     /\ Same
-SSkip == l <= N /\ drifted /\ e.ev # "Reset" /\ l' = l + 1 /\ UNCHANGED <<run, drifted, drift, taken, marking, rput>> /\ Same
+SSkip == l <= N /\ drifted /\ e.ev # "Reset" /\ l' = l + 1 /\ UNCHANGED <<run, drifted, drift, taken, marking, rput, execList>> /\ Same
 
 SNext == SReset \/ Strict \/ SDrift \/ SSkip
 SSpec == SInit /\ [][SNext]_svars
